@@ -424,6 +424,32 @@ impl C12 {
                 }
             }
         }
+        // "captures" of the mover's own men: never legal, whatever the piece and the geometry
+        {
+            let own: Vec<Sq> = (0..64u8).filter(|s| p.sq[*s as usize] != 0 && color(p.sq[*s as usize]) == p.stm).collect();
+            let take = if miri { 2 } else { 10 };
+            for _ in 0..take {
+                let from = *rng.pick(&own);
+                let to = *rng.pick(&own);
+                if from == to {
+                    continue;
+                }
+                let piece = kind(p.sq[from as usize]);
+                for takes in [true, false].iter() {
+                    let (sf, sr) = if piece == P {
+                        if *takes {
+                            (Some(from & 7), None)
+                        } else {
+                            (None, None)
+                        }
+                    } else {
+                        *rng.pick(&[(None, None), (Some(from & 7), None), (None, Some(from >> 3)), (Some(from & 7), Some(from >> 3))])
+                    };
+                    let q = Parts { piece, src_file: sf, src_rank: sr, takes: *takes, dest: to, promo: 0, suffix: None, ep_suffix: false };
+                    check(b, p, legal, &San::Normal(q), "own-piece-as-destination", rep);
+                }
+            }
+        }
         // castling spellings are always probed (legal or not)
         for long in [false, true].iter() {
             check(b, p, legal, &San::Castle { long: *long, suffix: None }, "castle-probe", rep);
